@@ -383,11 +383,6 @@ structure LmMatch where
   «end» : Nat
 deriving Repr, DecidableEq
 
-def optMemAt (S : Option (Nat → Bool)) (text : List Nat) (i : Nat) : Bool :=
-  match S with
-  | some m => memAt m text i
-  | none => false
-
 /-- `for end < endAt && end-start < maxRepeat && set.CharIn(input[end]) { end++ }` -/
 def runOf (S : Nat → Bool) (text : List Nat) (start maxRepeat : Nat) : Nat → Nat → Nat
   | 0, e => e
@@ -395,8 +390,23 @@ def runOf (S : Nat → Bool) (text : List Nat) (start maxRepeat : Nat) : Nat →
     if decide (e < text.length) && decide (e - start < maxRepeat) && memAt S text e then runOf S text start maxRepeat fuel (e + 1)
     else e
 
-/-- the core of `requiredLandmarkAlternativeMatch`: where the literal, or the greedy run of the set (at most
-    `MaxRepeat`, at least `MinRepeat` characters), ends -/
+def optMemAt (S : Option (Nat → Bool)) (text : List Nat) (i : Nat) : Bool :=
+  match S with
+  | some m => memAt m text i
+  | none => false
+
+/-- `for end-start > alt.MinRepeat && (end >= endAt || !TrailingWhitespaceSet.CharIn(input[end])) { end-- }`
+    (/repo 5d7d1a2): a set core that overlaps the whitespace required after it may give repetitions back -/
+def giveBack (W : Option (Nat → Bool)) (text : List Nat) (start minRepeat : Nat) : Nat → Nat
+  | 0 => 0
+  | e + 1 =>
+    if decide (minRepeat < e + 1 - start) && (decide (text.length ≤ e + 1) || !optMemAt W text (e + 1)) then
+      giveBack W text start minRepeat e
+    else e + 1
+
+/-- the core of `requiredLandmarkAlternativeMatch`: where the literal ends; or the greedy run of the set (at
+    most `MaxRepeat`, at least `MinRepeat` characters), shortened to the last admissible end that is
+    followed by the required trailing whitespace, if there is one -/
 def lmCore (text : List Nat) (start : Nat) (alt : LmAlt) : Option Nat :=
   let n := text.length
   if !alt.literal.isEmpty then
@@ -407,7 +417,9 @@ def lmCore (text : List Nat) (start : Nat) (alt : LmAlt) : Option Nat :=
       if 0 < alt.minRepeat then
         let maxRepeat := if alt.maxRepeat ≤ 0 then alt.minRepeat else alt.maxRepeat.toNat
         let e := runOf S text start maxRepeat (n + 1) start
-        if e - start < alt.minRepeat then none else some e
+        if e - start < alt.minRepeat then none
+        else if alt.reqAfter && alt.trailWs.isSome then some (giveBack alt.trailWs text start alt.minRepeat e)
+        else some e
       else none
     | none => none
 
